@@ -292,8 +292,11 @@ func (c *Client) Connect(o ConnectOpts) *refmqtt.Packet {
 	c.Version, c.ID = o.Version, o.ClientID
 	c.Send(ConnectPacket(o))
 	vsched.Settle()
-	for _, r := range c.Recv() {
-		if r.P != nil && r.P.Type == refmqtt.CONNACK {
+	// consume up to and including the CONNACK; later packets stay for the next Recv
+	c.Pump()
+	for i := c.read; i < len(c.Inbox); i++ {
+		if r := c.Inbox[i]; r.P != nil && r.P.Type == refmqtt.CONNACK {
+			c.read = i + 1
 			return r.P
 		}
 	}
